@@ -7,6 +7,7 @@ mod c10;
 mod c13;
 mod c16;
 mod doc;
+mod gen;
 mod inv;
 
 use std::io::{BufRead, BufReader, Write};
@@ -38,8 +39,12 @@ impl Out {
 
 /// Run a closure, turning a panic into Err(message). typify uses panics as a
 /// rejection style in places; a panic in the code under test is data.
+thread_local! { static IN_GUARD: std::cell::Cell<u32> = std::cell::Cell::new(0); }
+
 pub fn guarded<T>(f: impl FnOnce() -> T) -> Result<T, String> {
+    IN_GUARD.with(|g| g.set(g.get() + 1));
     let r = std::panic::catch_unwind(std::panic::AssertUnwindSafe(f));
+    IN_GUARD.with(|g| g.set(g.get() - 1));
     match r {
         Ok(v) => Ok(v),
         Err(e) => {
@@ -57,7 +62,11 @@ pub fn guarded<T>(f: impl FnOnce() -> T) -> Result<T, String> {
 
 fn main() {
     // keep panic messages of the code under test out of stderr
-    std::panic::set_hook(Box::new(|_| {}));
+    std::panic::set_hook(Box::new(|info| {
+        if IN_GUARD.with(|g| g.get()) == 0 {
+            eprintln!("vdrive: {}", info);
+        }
+    }));
     let args: Vec<String> = std::env::args().collect();
     if args.len() < 4 {
         eprintln!("usage: vdrive <family> <cases.ndjson> <events.ndjson> [extra...]");
@@ -69,6 +78,7 @@ fn main() {
         "c10" => c10::run(&args[2], &args[3]),
         "c13" => c13::run(&args[2], &args[3]),
         "c16" => c16::run(&args[2], &args[3]),
+        "gen" => gen::run(&args[4], &args[2], &args[3], &args[5], args[6].parse().unwrap()),
         _ => {
             eprintln!("unknown family {}", fam);
             std::process::exit(2);
